@@ -8,15 +8,15 @@ INFO = dict(
             'fiber_manager_do_maintenance', 'mpsc_fifo_push', 'mpsc_fifo_trypop'],
  stubs=['contract kernel (see C03)', 'E1 round harness (e1/C12/barrier_e1.c): fiber_manager_wake_from_mpsc_queue = its documented behaviour (pop the head of the given fifo until n fibers were woken, spin while empty) over abstract FIFOs of round tags, with an environment step before every pop attempt: a participant that has arrived but not yet enqueued may enqueue, a fiber already released by this call may re-enter the barrier (real call) for round k+1; fiber_manager_wait_in_mpsc_queue = enqueue the caller tag on the given fifo now or later'],
  assumptions=['assume-guarantee: the runtime contract of C01/C02 holds for yield/schedule', 'x86-TSO mapping of atomics; -O1 IR of clang-14'],
- bounds='E1: one complete round k < 2^32 for every count 1..4 (thorough 6): all arrivals are real calls, any subset of the early arrivers still in the arrived-but-not-enqueued window, released fibers re-entering round k+1 during the release, <= 2 empty polls; E2: inductive step for count 3 (one wait call from an arbitrary arrival count incl. 2^32 / 2^64 boundaries); count 2 one round (SC, TSO), count 1 two rounds; thorough stretch: count 2 x 2 rounds, count 3 programs',
+ bounds='E1: one complete round k < 2^32 for every count 1..4 (thorough: 5 as a stretch job; 6 has no verdict in 15 min): all arrivals are real calls, any subset of the early arrivers still in the arrived-but-not-enqueued window, released fibers re-entering round k+1 during the release, <= 2 empty polls; E2: inductive step for count 3 (one wait call from an arbitrary arrival count incl. 2^32 / 2^64 boundaries); count 2 one round (SC, TSO), count 1 two rounds; thorough stretch: count 2 x 2 rounds, count 3 programs',
  outside='E2: counts > 3, more than 2 rounds; E1: counts > 6, the wake/wait queue code itself (C03/C15 and the E2 scenarios), 2^64 arrivals (counter wrap with count not a power of two)')
 
 
 def plan(tier, ctx):
     src = ['fiber_barrier.c', 'fiber_mutex.c'] + fvm.KERNEL_SRCS
     j = []
-    for mc in ((2, 4) if tier == 'quick' else (2, 4, 6)):
-        j += pair('e1.barrier.round.maxc%d' % mc, [VERIF + '/e1/C12/barrier_e1.c'], 'h_round', unwind=2 * mc + 4, timeout=900, defines=['MAXC=%d' % mc],
+    for mc in ((2, 4) if tier == 'quick' else (2, 4, 5)):
+        j += pair('e1.barrier.round.maxc%d' % mc, [VERIF + '/e1/C12/barrier_e1.c'], 'h_round', unwind=2 * mc + 4, timeout=900 if mc <= 4 else 1500, defines=['MAXC=%d' % mc], required=(mc <= 4),
                   meta={'engine': 'E1 cbmc-src', 'bounds': 'one complete round k < 2^32 of a barrier with count 1..%d: every arrival is a real fiber_barrier_wait call; each early arriver enqueued at once or later; released fibers re-enter round k+1 while the serial fiber is still releasing; <= 2 empty polls' % mc})
     j += fvm.config('C12', 'barrier_step3', 'barrier_step.c', 3, 4, 'sc', srcs=src, spec=fvm.kspec(3), bounds='count 3: one wait call from an arbitrary arrival count (small, around 2^32, around 2^64) with the earlier arrivers of the round queued', timeout=1200)
     j += fvm.config('C12', 'barrier_2x1', 'barrier.c', 2, 4, 'sc', srcs=src, defines=['NF=2', 'ROUNDS=1'], spec=fvm.kspec(2), bounds='count 2, 1 round', timeout=3000)
